@@ -227,7 +227,7 @@ fn append_rotating(some: bool) {
     m.do_append(id, p);
     assert_matches(&rl, &m);
     // every live payload is still resident after the rotation (the read path
-    // through a closed chunk file is exercised by c02_two_chunks_small_cache;
+    // through a closed chunk file is out of reach, DESIGN section 7;
     // walking it here with an untracked file costs more than the 7 GB budget)
     assert_cached(&rl, &m);
     assert!(rl.wal.closed.len() == 1, "chunk was not rotated");
